@@ -532,7 +532,7 @@ def main():
         log(f"correspondence/obligation break ({len(diffs)} diffs, {len(bad)} bad, {len(obligations_broken)} obligations); widening search")
         # progressively larger searches (fresh seeds); stop at the first concrete failing input
         th = cfg["cases"].get("thorough", n)
-        for ws, wn in enumerate([n * 2, max(n * 4, th // 4), max(n * 4, th)]):
+        for ws, wn in enumerate([n, max(n * 4, th // 4), max(n * 4, th)]):
             res, err = one_run(seed + 7919 * (ws + 1), wn, f"widen{ws}")
             widened += 1
             if err: break
